@@ -50,6 +50,7 @@ fn drive(args: &[String]) {
     "c01cli" => c01::drive(vectors, opt(args, "--vectors2"), corpus, seed, out, thorough),
     "c06" | "c07" | "fix" => fix::drive(vectors, opt(args, "--vectors2"), corpus, seed, out, thorough, &prop),
     "c10" => c10::drive(vectors, corpus, seed, out, thorough),
+    "c14" => c14::drive(vectors.expect("--vectors"), out, thorough),
     "rules" => rules::drive(opt(args, "--universe").expect("--universe"), vectors.expect("--vectors"), out),
     "c20" => c20::drive(vectors.expect("--vectors"), out),
     _ => {
